@@ -14,6 +14,15 @@ NPROC = 16
 
 FORBIDDEN = re.compile(r'\b(Admitted|admit|Axiom|Axioms|Parameter|Parameters|Conjecture|Conjectures)\b|Unset\s+Guard|bypass_check|Admit\s+Obligations|type-in-type|impredicative-set|Unset\s+Universe|Unset\s+Positivity')
 
+# axioms declared by the Coq standard library itself that theorems may depend on (only C11b does, through Flocq's
+# b32_of_bits / b64_of_bits and Bcompare_correct); anything else reported by Print Assumptions / coqchk is a broken obligation
+STDLIB_AXIOMS = {
+    'ClassicalDedekindReals.sig_not_dec', 'ClassicalDedekindReals.sig_forall_dec',
+    'FunctionalExtensionality.functional_extensionality_dep', 'Classical_Prop.classic',
+    'Coq.Reals.ClassicalDedekindReals.sig_not_dec', 'Coq.Reals.ClassicalDedekindReals.sig_forall_dec',
+    'Coq.Logic.FunctionalExtensionality.functional_extensionality_dep', 'Coq.Logic.Classical_Prop.classic',
+}
+
 TRUSTED_COMMON = [
     'Coq 8.16.1 kernel (coqc, full .vo build; vm_compute used, native_compute not used)',
     'no axioms declared by the development (grep gate + Print Assumptions per theorem)',
@@ -103,11 +112,23 @@ def grep_gate():
 
 def run_gen(targets):
     """Regenerate coq/Gen from /repo's current headers. Returns dict of errors."""
-    rc, o, e = sh([sys.executable, os.path.join(VERIF, 'tools', 'gen.py')] + list(targets), timeout=600)
+    # every generated file named in _CoqProject must exist for make to run at all: (re)generate the ones that are
+    # missing as well (e.g. a check invoked without setup.sh); their errors only matter to the checks that use them
+    want = list(targets)
+    try:
+        listed = [l.strip()[4:-2] for l in open(os.path.join(COQ, '_CoqProject')) if l.startswith('Gen/')]
+        byfile = {'GenEncode': 'enc', 'GenFloat': 'float', 'GenLockWord': 'lock', 'GenQsbrState': 'qsbr', 'GenKeyPrefix': 'prefix',
+                  'GenMutexMethods': 'mutex', 'GenPtrMethods': 'ptr'}
+        for f in listed:
+            if not os.path.exists(os.path.join(COQ, 'Gen', f + '.v')) and byfile.get(f) and byfile[f] not in want:
+                want.append(byfile[f])
+    except OSError:
+        pass
+    rc, o, e = sh([sys.executable, os.path.join(VERIF, 'tools', 'gen.py')] + want, timeout=900)
     errs = {}
     for line in o.splitlines():
         m = re.match(r'GEN-ERROR (\w+): (.*)', line)
-        if m:
+        if m and m.group(1) in targets:
             errs[m.group(1)] = m.group(2)
     if rc not in (0, 1):
         errs['gen.py'] = (e or o)[-1500:]
@@ -163,19 +184,26 @@ def coq_prove(prop_files, timeout=1500):
                     if re.match(r'\s*(Qed|Defined)\.', l):
                         cnt += 1
                 discharged += cnt
-    # assumptions: sequence of blocks in stdout, one per Print Assumptions, in file order
-    assumptions = {}
-    blocks = re.findall(r'(Closed under the global context|Axioms:\n(?:.+\n?)*?(?=\n\n|\Z|Closed under|COQC|make))', o)
+    # assumptions: one block per Print Assumptions in stdout: "Closed under the global context" or
+    # "Axioms:" followed by "name : type" entries (the type may continue on indented lines)
     axioms = set()
-    for b in blocks:
-        if b.startswith('Axioms:'):
-            for l in b.splitlines()[1:]:
-                m = re.match(r'\s*([A-Za-z0-9_\.\']+)\s*:', l)
-                if m:
-                    axioms.add(m.group(1))
+    closed_blocks = axiom_blocks = 0
+    in_ax = False
+    for l in o.splitlines():
+        if l.startswith('Closed under the global context'):
+            closed_blocks += 1
+            in_ax = False
+        elif l.startswith('Axioms:'):
+            axiom_blocks += 1
+            in_ax = True
+        elif in_ax:
+            if not l.strip() or l.startswith('COQC') or l.startswith('make') or l.startswith('File '):
+                in_ax = False
+            elif not l[0].isspace():
+                axioms.add(l.split()[0].rstrip(':'))
     return {'obligations': obligations, 'discharged': discharged, 'failed': failed,
-            'per_file': per_file, 'axioms': sorted(axioms), 'closed_blocks': sum(1 for b in blocks if b.startswith('Closed')),
-            'axiom_blocks': sum(1 for b in blocks if b.startswith('Axioms')), 'log': text[-3000:]}
+            'per_file': per_file, 'axioms': sorted(axioms), 'closed_blocks': closed_blocks,
+            'axiom_blocks': axiom_blocks, 'log': text[-3000:]}
 
 
 def extract_and_build_ocaml(drivers, timeout=600):
@@ -286,7 +314,7 @@ def proof_stage(res, gen_targets, prop_files, what):
     Returns True when every obligation was discharged."""
     with Lock():
         bad = grep_gate()
-        gerrs = run_gen(gen_targets) if gen_targets else {}
+        gerrs = run_gen(gen_targets)
         pr = coq_prove(prop_files)
     cov = res.coverage
     cov['obligations'] = pr['obligations']
@@ -302,6 +330,10 @@ def proof_stage(res, gen_targets, prop_files, what):
         res.violation('forbidden construct in the Coq development: ' + '; '.join(bad[:5]),
                       {'kind': 'grep-gate', 'hits': bad}, found_input=False)
     res.broken = []
+    for a in pr['axioms']:
+        if a not in STDLIB_AXIOMS:
+            ok = False
+            res.broken.append('a theorem depends on an axiom outside the named standard-library set: ' + a)
     for t, e in gerrs.items():
         ok = False
         res.broken.append('translator failed on %s: %s' % (t, e))
@@ -311,6 +343,19 @@ def proof_stage(res, gen_targets, prop_files, what):
     if pr['discharged'] != pr['obligations'] and not res.broken:
         ok = False
         res.broken.append('not all obligations discharged: %d of %d' % (pr['discharged'], pr['obligations']))
+    if ok and res.tier == 'thorough':
+        # independent re-check of the compiled property files and everything they depend on
+        mods = ['Unodb.' + f[:-2].replace('/', '.') for f in prop_files]
+        rc, o, e = sh(['coqchk', '-o', '-silent', '-Q', '.', 'Unodb'] + mods, cwd=COQ, timeout=3000)
+        summ = o[o.find('CONTEXT SUMMARY'):] if 'CONTEXT SUMMARY' in o else (o + e)[-800:]
+        ax = ''
+        if '* Axioms:' in summ:
+            ax = summ.split('* Axioms:')[1].split('* Constants')[0].strip()
+        cov['coqchk'] = {'rc': rc, 'modules': mods, 'axioms': ax or '?'}
+        names = [] if ax == '<none>' else [x.strip() for x in ax.replace('\n', ' ').split() if '.' in x and ':' not in x]
+        if rc != 0 or not ax or any(n not in STDLIB_AXIOMS for n in names):
+            ok = False
+            res.broken.append('coqchk: rc=%s axioms=%s' % (rc, ax[:300]))
     res.proof_ok = ok
     res.proof_log = pr['log']
     return ok
